@@ -179,3 +179,6 @@ def required_labels(tier):
 
 
 KNOWN_PREDICATES = {}
+
+
+RULE = RULE + " " + ('Configurations may give several --tags options (one per operand of a top-level and).')
